@@ -131,6 +131,7 @@ Eval(e, st) ==
          LET parts == EvalSeq(e.parts, 1, st) IN
          IF IsErr(parts) THEN parts
          ELSE IF \E i \in DOMAIN parts.v : UndefErr(parts.v[i], st, "output") THEN Err("UndefinedError")
+         ELSE IF \E i \in DOMAIN parts.v : Unprintable(parts.v[i]) THEN Err("UNSPEC")
          ELSE Str(JoinStr([i \in DOMAIN parts.v |-> OutStr(parts.v[i])], ""))
     [] e.k = "filtered" ->
          LET l == Eval(e.left, st) IN IF IsErr(l) THEN l ELSE EvalFilters(e.filters, l, st)
@@ -196,6 +197,9 @@ EvalPath(segs, i, obj, st) ==
 
 EvalArgs(args, i, st) == EvalSeq(args, i, st)
 
+\* filters that do not turn their left value into text
+StructuralFilters == {"size", "first", "last", "default", "map", "where", "reverse", "concat", "compact", "uniq", "sum"}
+
 \* filters whose left value may be an undefined without complaint under strict
 DefaultLike == {"default"}
 
@@ -207,6 +211,9 @@ EvalFilters(fs, left, st) ==
             IF IsErr(args) THEN args
             ELSE IF UndefErr(left, st, "filter") /\ f.n \notin DefaultLike THEN Err("UndefinedError")
             ELSE IF \E j \in DOMAIN args.v : UndefErr(args.v[j], st, "filterarg") THEN Err("UndefinedError")
+            ELSE IF /\ f.n \notin StructuralFilters
+                    /\ (Unprintable(left) \/ \E j \in DOMAIN args.v : Unprintable(args.v[j]))
+                 THEN Err("UNSPEC")
             ELSE LET r == Apply(f.n, left, args.v, st.cfg) IN
                  IF IsErr(r) THEN r ELSE EvalFilters(Tail(fs), r, st)
 
@@ -315,6 +322,7 @@ ExecNode(n, st) ==
          LET v == Eval(n.e, st) IN
          IF IsErr(v) THEN Fail(st, v.cls)
          ELSE IF UndefErr(v, st, "output") THEN Fail(st, "UndefinedError")
+         ELSE IF Unprintable(v) THEN Fail(st, "UNSPEC")
          ELSE Write(st, OutText(v, st))
     [] n.k = "assign" ->
          LET v == Eval(n.e, st) IN
@@ -384,6 +392,7 @@ ExecNode(n, st) ==
              s1  == [st EXCEPT !.cycles = HPut(@, key, idx + 1)]
          IN IF IsErr(v) THEN Fail(s1, v.cls)
             ELSE IF UndefErr(v, st, "output") THEN Fail(s1, "UndefinedError")
+            ELSE IF Unprintable(v) THEN Fail(s1, "UNSPEC")
             ELSE Write(s1, OutText(v, st))
     [] n.k = "liquid" -> ExecBlock(n.body, st)
     [] n.k = "include" -> ExecInclude(n, st)
